@@ -66,6 +66,17 @@ def build(tier, known):
             cfgs.append(('uint_bytes', dict(n=n, kind='uint', strict=strict, ascii_only=False), 'ALL byte strings'))
             cfgs.append(('float_bytes', dict(n=n, kind='float', strict=strict, ascii_only=False), 'ALL byte strings; f64 parsing uninterpreted'))
             cfgs.append(('enum_bytes', dict(n=n, kind='enum', strict=strict, ascii_only=False), 'ALL byte strings; item lookup uninterpreted; symbolic 2-row table'))
+    hs.append(Harness('n_attr_text', 'data', 'parser.rs', '', functions=[], bound='', claim='', role='native'))
+    for strict in (True, False):
+        for ascii_only, nmax in ((True, 6 if q else 8), (False, 3 if q else 4)):
+            for n in range(0, nmax + 1):
+                dom = 'all ASCII texts' if ascii_only else 'ALL byte strings (incl. invalid UTF-8)'
+                hs.append(E2Spec(f'e2_c02_attrtext_{"ascii" if ascii_only else "bytes"}_{"strict" if strict else "lenient"}_n{n}', 'AttrText',
+                                 dict(n=n, mode='total', strict=strict, ascii_only=ascii_only),
+                                 functions=['parser::ArxmlParser::parse_attribute_text', 'parser::ArxmlParser::parse_character_data'],
+                                 bound=f'{dom} of length exactly {n} as attribute text; element type with two attributes with symbolic names/required flags/version masks; attribute-name lookup uninterpreted',
+                                 claim='no panic (index arithmetic of the attribute splitter, value parsing); error and warning lines within the document',
+                                 native=('data', 'n_attr_text'), parts=(16 if (n >= 5 or (not ascii_only and n >= 3)) else (4 if n == 4 else 1)), timeout=900 if q else 7200))
     for tag, params, dom in cfgs:
         n = params['n']
         name = f'e2_c02_{tag}_{"strict" if params["strict"] else "lenient"}_n{n}'
